@@ -77,3 +77,10 @@
   (forall ((q Int)) (! (=> (and (<= 0 q) (< q al) (not (= q r))) (= (select A q) (select B q))) :pattern ((select A q)))))
 (define-fun memSameExcept ((A (Array Int (Array Int Val))) (B (Array Int (Array Int Val))) (a Int) (al Int)) Bool
   (forall ((q Int)) (! (=> (and (<= 0 q) (< q al) (not (= q a))) (= (select A q) (select B q))) :pattern ((select A q)))))
+
+; Condition record well-formedness
+(define-fun cwf ((F_condition_cfg (Array Int Int)) (F_nodeConfig_typ (Array Int (_ BitVec 8))) (F_nodeConfig_log (Array Int Int)) (alloc Int) (c Int)) Bool
+  (and (< 0 c) (< c alloc)
+       (let ((g (select F_condition_cfg c)))
+         (and (< 0 g) (< g alloc) (= (select F_nodeConfig_typ g) #x05)
+              (not (= (select F_nodeConfig_log g) 0)) (< (select F_nodeConfig_log g) alloc)))))
